@@ -769,7 +769,7 @@ def _check_batch(ctx, drv, batch, send_variant, found, stale_variant=True):
         for sig, what in oracle(h, b, rv, tag, trace):
             found.add(sig, what, case, 'see property clause', code_s[:700])
         if m is not None and m != code_s:
-            ctx.disagree('%s budget=%d' % (h, b), case, m, code_s)
+            ctx.disagree('%s budget=%s' % (h, b), case, m, code_s[:700])
         if len(ctx.samples) < 6 and len(p) >= 3 and (len(ctx.samples) % 2 == 0) == (tag == 'ok'):
             ctx.sample({'case': case, 'code': code_s, 'model': m})
 
